@@ -28,7 +28,7 @@ func firstAllowed(es []ent) string {
 
 func liveRun(entS string, peers []string, hdr string) vlib.Res {
 	es := parseEnts(entS)
-	l := srvh.Start(srvh.Opts{Handlers: []string{"recovery", "accesslist", "edns"}, Listen: true,
+	l := srvh.Start(srvh.Opts{Handlers: []string{"recovery", "accesslist", "edns", "cache"}, Listen: true,
 		Tweak: func(cfg *config.Config) { cfg.AccessList = texts(es) }})
 	defer l.Stop()
 	l.Stub.Set(func(req *dns.Msg) *dns.Msg {
@@ -62,6 +62,28 @@ func liveRun(entS string, peers []string, hdr string) vlib.Res {
 		}
 		if loopAllowed && !got {
 			fail("live/" + proto + "/allowed-source-dropped")
+		}
+	}
+	// a UDP packet the strict wire parser declines (unknown EDNS option) takes the
+	// decoded fallback / worker replay: the source is judged all the same
+	{
+		before := l.Stub.Calls.Load()
+		qq := q.Copy()
+		qq.SetEdns0(1232, false)
+		o := qq.IsEdns0()
+		o.Option = append(o.Option, &dns.EDNS0_LOCAL{Code: 65001, Data: []byte{0xbe, 0xef}})
+		c := &dns.Client{Net: "udp", Timeout: 400 * time.Millisecond}
+		if loopAllowed {
+			c.Timeout = 2 * time.Second
+		}
+		resp, _, err := c.Exchange(qq, l.Addr)
+		got := err == nil && resp != nil
+		outs = append(outs, "udpx="+vlib.B(got))
+		if !loopAllowed && (got || l.Stub.Calls.Load() != before) {
+			fail("live/udp/denied-source-served-on-decoded-fallback")
+		}
+		if loopAllowed && !got {
+			fail("live/udp/allowed-source-dropped-on-decoded-fallback")
 		}
 	}
 	// the DoH handler, any peer
